@@ -285,6 +285,17 @@ class Monitor:
             self.sim.violation_once(f'proc:{nm}:{situation}', f'procedure-not-concluded:{nm}:{situation}', f'{nm} accepted (Command Status 0) but its completion event never arrived')
 
 
+def _final(sim, mon, world, adv, wait):
+    """Give pending procedures `wait` virtual seconds to conclude, then judge. If the step budget does not let that much
+    virtual time pass (a scanner flooded by a fast advertiser), in-flight answers may still be on their way: no verdict."""
+    t_end = sim.loop.time() + wait
+    sim.loop.advance(wait, step_budget=400_000)
+    if sim.loop.time() < t_end - 1e-3:
+        sim.probe('final_wait_inconclusive')
+        return
+    mon.final(adv & _advertised(world))
+
+
 def _quiet_fast_advertisers(sim, world):
     """After the callers are done only procedure conclusions are awaited: stop advertisers whose
     interval the random commands set to (almost) zero, they would only burn steps."""
@@ -405,8 +416,7 @@ def run_random(case):
                 sim.violation_once('callerexc', f'caller-crashed:{type(e).__name__}', str(e)[:200])
         adv = _advertised(world)
         _quiet_fast_advertisers(sim, world)
-        sim.loop.advance(30.0, step_budget=60_000)
-        mon.final(adv & _advertised(world))
+        _final(sim, mon, world, adv, 30.0)
         nontrivial = contended[0] > 0 or sim.probes['procedure_pending'] > 0
         return result(sim, nontrivial=nontrivial)
     finally:
@@ -534,8 +544,7 @@ def run_procedures(case):
                 t.cancel()
         adv = _advertised(world)
         _quiet_fast_advertisers(sim, world)
-        sim.loop.advance(60.0, step_budget=60_000)
-        mon.final(adv & _advertised(world))
+        _final(sim, mon, world, adv, 60.0)
         sim.trace.shape(proc, situation)
         return result(sim, nontrivial=sim.probes['procedure_pending'] > 0)
     finally:
